@@ -1,7 +1,9 @@
 (* C15/Props.v — the property theorems, nothing else.  Each is closed by [exact] of a lemma of
    Proofs.v and followed by Print Assumptions (parsed by the harness on every run). *)
 From Coq Require Import ZArith List.
-From FV Require Import Base.Res Base.BE C15.Model C15.Proofs C15.ModelDeltas C15.ProofsDeltas C15.ModelPoints C15.ProofsPoints C15.ModelTags C15.ProofsTags.
+From FV Require Import Base.Res Base.BE C15.Model C15.Proofs C15.ModelDeltas C15.ProofsDeltas C15.ModelPoints C15.ProofsPoints C15.ModelTags C15.ProofsTags C15.ModelSstruct C15.ProofsSstruct.
+From Coq Require Import QArith Qabs.
+From FV Require Data.Data_sstruct.
 Import ListNotations.
 Open Scope Z_scope.
 
@@ -76,3 +78,30 @@ Theorem tag_identifier_roundtrip : forall a b c d, Forall (fun x => 16 <= x < 25
   exists ident, tagToIdentifier [a; b; c; d] = Ok ident /\ identifierToTag ident = Ok [a; b; c; d].
 Proof. exact ProofsTags.tag_identifier_roundtrip. Qed.
 Print Assumptions tag_identifier_roundtrip.
+
+(* misc/sstruct.py over ANY format descriptor (integers of 1/2/4/8 bytes, fixed-point fields, bytes, strings, truth values, pad
+   bytes): whatever pack accepts, unpack reads back as the written values — fixed-point values as the grid value they were
+   rounded to, strings cut or NUL-padded to their width, truth values as 0/1 ([canon]) *)
+Theorem sstruct_roundtrip : forall fmt vals bs,
+  ModelSstruct.pack fmt vals = Ok bs -> ModelSstruct.unpack fmt bs = Ok (canon fmt vals).
+Proof. exact ProofsSstruct.sstruct_roundtrip. Qed.
+Print Assumptions sstruct_roundtrip.
+
+(* ... and a value that lies on its field's grid comes back unchanged, for every format string of Lib/fontTools (the
+   descriptors are regenerated from the source on every run) *)
+Theorem sstruct_library_roundtrip : forall d vals bs, In d Data_sstruct.sstruct_formats ->
+  exact (map kind_of d) vals -> ModelSstruct.pack (map kind_of d) vals = Ok bs ->
+  ModelSstruct.unpack (map kind_of d) bs = Ok vals.
+Proof. exact ProofsSstruct.library_roundtrip. Qed.
+Print Assumptions sstruct_library_roundtrip.
+
+(* a record occupies exactly calcsize bytes *)
+Theorem sstruct_size : forall fmt vals bs, ModelSstruct.pack fmt vals = Ok bs -> length bs = calcsize fmt.
+Proof. exact ProofsSstruct.pack_length. Qed.
+Print Assumptions sstruct_size.
+
+(* a fixed-point field stores the nearest grid value: never more than half a unit (2^-(A+1)) from what was asked *)
+Theorem sstruct_fixed_nearest : forall q a, 0 <= a ->
+  (Qabs (fi2fl (fl2fi q a) a - q) <= 1 # (2 * Z.to_pos (2 ^ a)))%Q.
+Proof. exact ProofsSstruct.fixed_nearest. Qed.
+Print Assumptions sstruct_fixed_nearest.
